@@ -137,6 +137,15 @@ def _own_scratch():
     if os.environ.get("VERIF_SCRATCH") and os.path.isdir(os.environ["VERIF_SCRATCH"]):
         return
     base = "/dev/shm" if os.path.isdir("/dev/shm") else None
+    # left-overs of invocations that were killed from outside (no atexit): anything older than six hours
+    try:
+        for name in os.listdir(base or tempfile.gettempdir()):
+            if name.startswith("frame-verif-"):
+                path = os.path.join(base or tempfile.gettempdir(), name)
+                if time.time() - os.path.getmtime(path) > 6 * 3600:
+                    shutil.rmtree(path, ignore_errors=True)
+    except OSError:
+        pass
     root = tempfile.mkdtemp(prefix="frame-verif-run-", dir=base)
     os.environ["VERIF_SCRATCH"] = root
     pid = os.getpid()
